@@ -223,6 +223,8 @@ class C13(Prop):
                           [0, "a", "", 2.5]))
         cs.append(self.mk({"kind": "dict", "v": [[enc(""), encs(["x"])], [enc(0), encs([1])]]},
                           [["sort"], ["append", "b"], ["replace", "", ""]], ["", "x", 0, 1, "b"]))
+        cs.append(self.mk({"kind": "dict", "alias": True, "v": [[enc("a"), []], [enc("b"), []], [enc(0), []]]},
+                          [["group", "a", "b"], ["append", "c"]], ["a", "b", 0, "c"]))
         return cs
 
     def mk(self, init, ops, univ):
@@ -283,6 +285,10 @@ class C13(Prop):
                 vals.append(vals[0])  # duplicated element: not a valid start
                 return {"kind": "list", "v": encs(vals)}, False
             return {"kind": "list", "v": encs(vals)}, True
+        if rng.random() < 0.08:
+            ks = [u for u in rng.sample(U, min(len(U), rng.randint(2, 4))) if u is not NAN]
+            init = {"kind": "dict", "alias": True, "v": [[enc(k), []] for k in ks]}
+            return init, self.dict_init_valid(init)
         pool = rng.sample(U, min(len(U), rng.randint(1, 8)))
         nk = rng.randint(1, max(1, min(4, len(pool))))
         keys, rest = pool[:nk], pool[nk:]
@@ -423,6 +429,10 @@ class C13(Prop):
         try:
             if init["kind"] == "list":
                 g = GroupedList(decs(init["v"]))
+            elif init.get("alias"):
+                # dict.fromkeys(keys, []) pattern: every empty member list is ONE shared object
+                shared = []
+                g = GroupedList({dec(k): (shared if not vs else decs(vs)) for k, vs in init["v"]})
             else:
                 g = GroupedList({dec(k): decs(vs) for k, vs in init["v"]})
             out["obs0"] = observe(g, univ)
